@@ -44,7 +44,10 @@ contract("monkeytype.stubs:shrink_traced_types", props=["C01", "C04", "C14"], th
 contract("monkeytype.stubs:FunctionDefinition.from_callable_and_traced_types", props=["C01", "C11", "C12"], theories=TH, mode="assumed",
          params={"cls": "any", "func": "Func", "arg_types": "Dict[str,Ty]", "return_type": "Opt[Ty]", "yield_type": "Opt[Ty]", "existing_annotation_strategy": "Enum:ExistingAnnotationStrategy"},
          result="FunctionDefinition",
-         note="replaces anonymous TypedDicts by class stubs and calls update_signature_args / update_signature_return (both proved): bounded (C11 / C12 companions)")
+         ensures={"post:annotations-modelled": "result is not None and forall(params_of(result.signature), lambda p: (panno(p) is EMPTY or panno(p) is ELLIPSIS_ or wf_rw(panno(p)) or kind(panno(p)) is K_ForwardRef) and panno(p) is not UNION_BARE)"
+                                               " and (ret_of(result.signature) is EMPTY or ret_of(result.signature) is ELLIPSIS_ or wf_rw(ret_of(result.signature)) or kind(ret_of(result.signature)) is K_ForwardRef)"},
+         note="replaces anonymous TypedDicts by class stubs and calls update_signature_args / update_signature_return (both proved): bounded (C11 / C12 companions); "
+              "assumed: the annotations of the resulting signature (traced types, forward references to generated classes, existing source annotations) are within the modelled type grammar")
 
 _COVER = ("forall(traces, lambda t: forall(t.arg_types, lambda n: has(L_arg_types, n)"
           " and forall_val(lambda v: implies(mem(v, lookup(t.arg_types, n)), mem(v, lookup(L_arg_types, n))))))")
@@ -62,17 +65,66 @@ contract("monkeytype.stubs:get_updated_definition", props=["C01", "C14"], theori
              "post:yield-cover": "forall(traces, lambda t: implies(t.yield_type is not None, L_yield_type is not None and forall_val(lambda v: implies(mem(v, t.yield_type), mem(v, L_yield_type)))))",
              "post:never-invented": "implies(forall(traces, lambda t: t.return_type is None), L_return_type is None) and implies(forall(traces, lambda t: t.yield_type is None), L_yield_type is None)",
              "post:handed-on": "result is FunctionDefinition.from_callable_and_traced_types(func, L_arg_types, L_return_type, L_yield_type, existing_annotation_strategy)",
+             "post:annotations-modelled": "(result is not None and forall(params_of(result.signature), lambda p: (panno(p) is EMPTY or panno(p) is ELLIPSIS_ or wf_rw(panno(p)) or kind(panno(p)) is K_ForwardRef) and panno(p) is not UNION_BARE) and (ret_of(result.signature) is EMPTY or ret_of(result.signature) is ELLIPSIS_ or wf_rw(ret_of(result.signature)) or kind(ret_of(result.signature)) is K_ForwardRef))",
          })
 
 
-contract("monkeytype.stubs:build_module_stubs", props=["C12", "C14", "C01"], theories=TH, mode="assumed",
+_MS = "lookup({d}, {m})"
+_CS = "lookup(lookup({d}, {m}).class_stubs, {k})"
+_CONTENT = "({fs}.name is last_name_of({e}.qualname) and {fs}.signature is {e}.signature and {fs}.kind is {e}.kind and {fs}.is_async == {e}.is_async)"
+
+
+def _bms_clauses(d, n, ents="entries"):
+    """The placement clauses of build_module_stubs over the module map `d` after the first `n` entries (invariant and postcondition share them)."""
+    ms = lambda m: _MS.format(d=d, m=m)
+    cs = lambda m, k: _CS.format(d=d, m=m, k=k)
+    E = lambda j: "nth(%s, %s)" % (ents, j)
+    return {
+        # one ModuleStub per module that has an entry, none for any other module
+        "mods": "forall_v(lambda m: has(%s, m) == exists(range_(0, %s), lambda j: %s.module is m))" % (d, n, E("j")),
+        "dict": "is_dictlike_(%s)" % d,
+        "ms-fresh": "forall(%s, lambda m: %s is not None and alloc_time(%s) < clock() and alloc_time(%s) >= clock0() and is_dictlike_(%s.function_stubs) and is_dictlike_(%s.class_stubs))"
+                    % (d, ms("m"), ms("m"), ms("m"), ms("m"), ms("m")),
+        "ms-inj": "forall(%s, lambda m1: forall(%s, lambda m2: implies(m1 is not m2, %s is not %s)))" % (d, d, ms("m1"), ms("m2")),
+        "cs-fresh": "forall(%s, lambda m: forall(%s.class_stubs, lambda k: %s is not None and alloc_time(%s) < clock() and alloc_time(%s) >= clock0() and %s.name is k and is_dictlike_(%s.function_stubs)))"
+                    % (d, ms("m"), cs("m", "k"), cs("m", "k"), cs("m", "k"), cs("m", "k"), cs("m", "k")),
+        "cs-inj": "forall(%s, lambda m1: forall(%s.class_stubs, lambda k1: forall(%s, lambda m2: forall(%s.class_stubs, lambda k2: implies(m1 is not m2 or k1 is not k2, %s is not %s)))))"
+                  % (d, ms("m1"), d, ms("m2"), cs("m1", "k1"), cs("m2", "k2")),
+        # (the same freshness facts keyed by membership instead of position: easier to instantiate)
+        "ms-fresh-h": "forall_v(lambda m: implies(has(%s, m), %s is not None and alloc_time(%s) < clock() and is_dictlike_(%s.class_stubs)))" % (d, ms("m"), ms("m"), ms("m")),
+        "cs-fresh-h": "forall_v(lambda m, k: implies(has(%s, m) and has(%s.class_stubs, k), %s is not None and alloc_time(%s) < clock() and is_dictlike_(%s.function_stubs)))"
+                      % (d, ms("m"), cs("m", "k"), cs("m", "k"), cs("m", "k")),
+        "ms-inj-h": "forall_v(lambda m1, m2: implies(has(%s, m1) and has(%s, m2) and m1 is not m2, %s is not %s))" % (d, d, ms("m1"), ms("m2")),
+        # C12: nothing untraced appears - every module-level function stub comes from an entry of that module whose qualified name is that bare name, with its signature / kind / async flag
+        "top-only": "forall(%s, lambda m: forall(%s.function_stubs, lambda fn: exists(range_(0, %s), lambda j: %s.module is m and not in_class_q(%s.qualname) and last_name_of(%s.qualname) is fn and %s)))"
+                    % (d, ms("m"), n, E("j"), E("j"), E("j"), _CONTENT.format(fs="lookup(%s.function_stubs, fn)" % ms("m"), e=E("j"))),
+        # ... every method stub sits in the ClassStub named by the class path of an entry of that module, under the method's own name
+        "cls-only": "forall(%s, lambda m: forall(%s.class_stubs, lambda k: forall(%s.function_stubs, lambda fn: exists(range_(0, %s), lambda j: %s.module is m and in_class_q(%s.qualname)"
+                    " and class_path_of(%s.qualname) is k and last_name_of(%s.qualname) is fn and %s))))"
+                    % (d, ms("m"), cs("m", "k"), n, E("j"), E("j"), E("j"), E("j"), _CONTENT.format(fs="lookup(%s.function_stubs, fn)" % cs("m", "k"), e=E("j"))),
+        # C12: each traced function appears, at module level or inside its class
+        "top-all": "forall(range_(0, %s), lambda j: implies(not in_class_q(%s.qualname), has(%s.function_stubs, last_name_of(%s.qualname))))" % (n, E("j"), ms(E("j") + ".module"), E("j")),
+        "cls-all": "forall(range_(0, %s), lambda j: implies(in_class_q(%s.qualname), has(%s.class_stubs, class_path_of(%s.qualname)) and has(%s.function_stubs, last_name_of(%s.qualname))))"
+                   % (n, E("j"), ms(E("j") + ".module"), E("j"), cs(E("j") + ".module", "class_path_of(%s.qualname)" % E("j")), E("j")),
+    }
+
+
+contract("monkeytype.stubs:build_module_stubs", props=["C12", "C14", "C01"], theories=TH + ["stubs", "imports", "enc", "cli", "path"], pure=False,
+         modifies=["ModuleStub.function_stubs", "ModuleStub.class_stubs", "ModuleStub.imports_stub", "ModuleStub.typed_dict_class_stubs", "ClassStub.function_stubs", "ClassStub.name",
+                   "ClassStub.attribute_stubs", "ImportBlockStub.imports"],
          params={"entries": "Seq[FunctionDefinition]"}, result="StubMap",
-         note="placement of function / class stubs by qualname, import merging: bounded (C12 / C11 / C14 companions)")
+         requires={"annos-wf": "forall(entries, lambda e: e is not None and forall(params_of(e.signature), lambda p: %s and panno(p) is not UNION_BARE) and %s)"
+                               % ("(panno(p) is EMPTY or panno(p) is ELLIPSIS_ or wf_rw(panno(p)) or kind(panno(p)) is K_ForwardRef)",
+                                  "(ret_of(e.signature) is EMPTY or ret_of(e.signature) is ELLIPSIS_ or wf_rw(ret_of(e.signature)) or kind(ret_of(e.signature)) is K_ForwardRef)")},
+         ensures={"post:" + k_: v_ for k_, v_ in _bms_clauses("tag_(result, 'Dict[str,ModuleStub]')", "len(entries)").items()},
+         loops={0: {"iter": "entries", "inv": _bms_clauses("tag_(mod_stubs, 'Dict[str,ModuleStub]')", "_i")},
+                "tags": {"mod_stubs": "Dict[str,ModuleStub]"}},
+         note="FunctionStub is modelled as an immutable record; the import block of each module stub is not specified here (C11: get_imports_for_signature proved; merging bounded)")
 
 _TWF = ("forall({ts}, lambda t: t is not None and is_dictlike_(t.arg_types) and forall(t.arg_types, lambda n: wf_rw(lookup(t.arg_types, n)) and lookup(t.arg_types, n) is not ELLIPSIS_ and lookup(t.arg_types, n) is not None)"
         " and implies(t.return_type is not None, wf_rw(t.return_type) and t.return_type is not ELLIPSIS_)"
         " and implies(t.yield_type is not None, wf_rw(t.yield_type) and t.yield_type is not ELLIPSIS_))")
-contract("monkeytype.stubs:build_module_stubs_from_traces", props=["C01", "C10", "C14", "C12"], theories=TH,
+contract("monkeytype.stubs:build_module_stubs_from_traces", props=["C01", "C10", "C14", "C12"], theories=TH + ["stubs", "imports", "enc", "cli", "path"],
          params={"traces": "Seq[Trace]", "max_typed_dict_size": "Opt[int]", "existing_annotation_strategy": "Enum:ExistingAnnotationStrategy", "rewriter": "Opt[Rewriter]"},
          result="StubMap", hide="*",
          requires={"k-int": "max_typed_dict_size is not None", "types-wf": _TWF.format(ts="traces")},
@@ -84,7 +136,8 @@ contract("monkeytype.stubs:build_module_stubs_from_traces", props=["C01", "C10",
              "post:grouping-only": "forall(L_index, lambda f: forall(lookup(L_index, f), lambda t: has(entry('traces'), t) and tag_(t, 'Trace').func is f))",
              "post:one-definition-per-function": "len(L_defns) == len(L_index) and forall(range_(0, len(L_defns)), lambda j: nth(L_defns, j) is get_updated_definition(nth(L_index, j), lookup(L_index, nth(L_index, j)),"
                                                  " max_typed_dict_size, rewriter, existing_annotation_strategy))",
-             "post:built-from": "result is build_module_stubs(L_defns)",
+             # ... and placed by build_module_stubs: per module, each definition at module level or in the class stub of its class path, nothing else
+             **{"post:built:" + k_: v_ for k_, v_ in _bms_clauses("tag_(result, 'Dict[str,ModuleStub]')", "len(L_defns)", "L_defns").items() if k_ in ("mods", "top-only", "cls-only", "top-all", "cls-all")},
          },
          loops={0: {"iter": "traces",
                     "inv": {"grouped": "forall(range_(0, _i), lambda j: has(index, nth(entry('traces'), j).func) and has(lookup(index, nth(entry('traces'), j).func), nth(entry('traces'), j)))",
@@ -92,5 +145,6 @@ contract("monkeytype.stubs:build_module_stubs_from_traces", props=["C01", "C10",
                             "dictlike": "is_dictlike_(index)"}},
                 1: {"iter": "index.items()",
                     "inv": {"defs": "len(defns) == _i and forall(range_(0, _i), lambda j: nth(defns, j) is get_updated_definition(nth(index, j), lookup(index, nth(index, j)),"
-                                    " max_typed_dict_size, rewriter, existing_annotation_strategy))"}},
+                                    " max_typed_dict_size, rewriter, existing_annotation_strategy))",
+                            "defs-modelled": "forall(range_(0, _i), lambda j: (tag_(nth(defns, j), 'FunctionDefinition') is not None and forall(params_of(tag_(nth(defns, j), 'FunctionDefinition').signature), lambda p: (panno(p) is EMPTY or panno(p) is ELLIPSIS_ or wf_rw(panno(p)) or kind(panno(p)) is K_ForwardRef) and panno(p) is not UNION_BARE) and (ret_of(tag_(nth(defns, j), 'FunctionDefinition').signature) is EMPTY or ret_of(tag_(nth(defns, j), 'FunctionDefinition').signature) is ELLIPSIS_ or wf_rw(ret_of(tag_(nth(defns, j), 'FunctionDefinition').signature)) or kind(ret_of(tag_(nth(defns, j), 'FunctionDefinition').signature)) is K_ForwardRef)))"}},
                 "tags": {"index": "DDict:set", "defns": "Seq[FunctionDefinition]"}})
